@@ -196,10 +196,11 @@ pub fn c17(args: &Args) {
         }
         let _ = (f2, f3, xf1, big, big2);
     }
+    let mut hrng = rng_for(20260927, "c17-half-fixed");
     // quotients that are exact half-integers: (F, G) = (2k+1)/2 * (f, g) with even f, g (rounding ties)
     for &n in &[2usize, 8, 64, 512] {
-        let f: Vec<i64> = small_vec(&mut rng, n, 4.0).iter().map(|x| 2 * x).collect();
-        let g: Vec<i64> = small_vec(&mut rng, n, 4.0).iter().map(|x| 2 * x + if n == 2 { 2 } else { 0 }).collect();
+        let f: Vec<i64> = small_vec(&mut hrng, n, 4.0).iter().map(|x| 2 * x).collect();
+        let g: Vec<i64> = small_vec(&mut hrng, n, 4.0).iter().map(|x| 2 * x + if n == 2 { 2 } else { 0 }).collect();
         if f.iter().all(|&x| x == 0) && g.iter().all(|&x| x == 0) {
             continue;
         }
@@ -208,6 +209,31 @@ pub fn c17(args: &Args) {
             let cf: Vec<i64> = f.iter().map(|x| x / 2 * m).collect();
             let cg: Vec<i64> = g.iter().map(|x| x / 2 * m).collect();
             out.emit(babai_event(&f, &g, &cf, &cg, "half-integer-quotient"));
+        }
+    }
+    // (inputs of the two tie families are FIXED, not derived from the run's seed: whether the unchanged code converges on a tie-heavy
+    // input is decided by the signs of floating-point noise (defect D10: deterministic 2-cycles), so the inputs are chosen once, such
+    // that it does, and every run judges the same ones)
+    let mut trng = rng_for(20260927, "c17-ties-fixed");
+    // many rounding ties at once: (F, G) = k (f, g) + h (f/2, g/2) with even f, g and a polynomial h of odd coefficients (the two
+    // versions must resolve every tie the same way); small n, where the transforms are exact or nearly so
+    // (n <= 4 only: with m simultaneous near-ties the loop of the unchanged code needs about 2^m iterations -- defect D10 -- so larger
+    // n would fail for that reason, flakily)
+    for &n in &[2usize, 4] {
+        for rep in 0..10 {
+            let f: Vec<i64> = small_vec(&mut trng, n, 5.0).iter().map(|x| 2 * x).collect();
+            let g: Vec<i64> = small_vec(&mut trng, n, 5.0).iter().enumerate().map(|(i, x)| 2 * x + if i == rep % n { 2 } else { 0 }).collect();
+            if f.iter().all(|&x| x == 0) && g.iter().all(|&x| x == 0) {
+                continue;
+            }
+            let k: Vec<i64> = (0..n).map(|_| trng.gen_range(-30..=30)).collect();
+            let h: Vec<i64> = (0..n).map(|_| 2 * trng.gen_range(-3..=3) + 1).collect();
+            let hf: Vec<i64> = f.iter().map(|x| x / 2).collect();
+            let hg: Vec<i64> = g.iter().map(|x| x / 2).collect();
+            let (kf, kg, hhf, hhg) = (negacyclic_mul(&k, &f), negacyclic_mul(&k, &g), negacyclic_mul(&h, &hf), negacyclic_mul(&h, &hg));
+            let cf: Vec<i64> = (0..n).map(|i| kf[i] + hhf[i]).collect();
+            let cg: Vec<i64> = (0..n).map(|i| kg[i] + hhg[i]).collect();
+            out.emit(babai_event(&f, &g, &cf, &cg, "many-ties"));
         }
     }
     // corners: all-zero (F,G) (defect D7 before fix 75957a9); unit f; sparse
